@@ -83,18 +83,28 @@ type epoch struct {
 
 type memState struct {
 	name   string
+	keep   unsafe.Pointer // keeps the object alive for the whole execution so that its address is never reused
 	w      epoch
 	hasW   bool
 	reads  map[int]epoch
 }
 
 func (s *Sched) access(addr unsafe.Pointer, name string, write bool) {
+	s.event(s.cur, OpAccess, uintptr(addr), name, write)
+	s.hbCheck(addr, name, write)
+}
+
+// hbCheck is the vector-clock race check alone: no scheduling point and no event in the state
+// signature (the access is part of the atomic step that follows the thread's last hooked operation).
+func (s *Sched) hbCheck(addr unsafe.Pointer, name string, write bool) {
 	t := s.cur
+	if t == nil {
+		return
+	}
 	key := uintptr(addr)
-	s.event(t, OpAccess, key, name, write)
 	m := s.mem[key]
 	if m == nil {
-		m = &memState{name: name, reads: map[int]epoch{}}
+		m = &memState{name: name, keep: addr, reads: map[int]epoch{}}
 		s.mem[key] = m
 	}
 	me := epoch{tid: t.id, clock: t.vc.get(t.id), where: t.name}
@@ -144,6 +154,22 @@ func W[T any](p *T, name string) *T {
 			s.yield(&op{kind: OpAccess, obj: unsafe.Pointer(p), label: name, write: true})
 		}
 		s.access(unsafe.Pointer(p), name, true)
+	}
+	return p
+}
+
+// RN / WN record a read / write of *p for the happens-before race check only (no scheduling point):
+// used for the blanket instrumentation of struct fields, package variables and captured locals.
+func RN[T any](p *T, name string) *T {
+	if s := active; s != nil && !s.unwinding() {
+		s.hbCheck(unsafe.Pointer(p), name, false)
+	}
+	return p
+}
+
+func WN[T any](p *T, name string) *T {
+	if s := active; s != nil && !s.unwinding() {
+		s.hbCheck(unsafe.Pointer(p), name, true)
 	}
 	return p
 }
